@@ -92,7 +92,7 @@ PLANS["C01"] = dict(
 def c03_consts(tier, seed):
     if tier == "thorough":
         return ['Contents = {"missing", "unrelated", "root", "inter", "leaf"}', "MaxList = 3", 'Others = {"", "W2", "O1"}']
-    return ['Contents = {"missing", "unrelated", "root"}', "MaxList = 2", 'Others = {"", "W2"}']
+    return ['Contents = {"missing", "unrelated", "root"}', "MaxList = 3", 'Others = {"", "W2"}']
 
 PLANS["C03"] = dict(
     level_text="TLC checks the store-loading loop (type filter, de-duplication, error propagation) against the declarative statement for every "
@@ -288,9 +288,9 @@ PLANS["C14"] = dict(
 # ------------------------------------------------------------------ C15
 def c15_cfg(tier, seed):
     if tier == "thorough":
-        consts = ['URLs = {"u1", "u2"}', "Bundles <- MCBundlesSmall", 'Corruptions = {"truncate", "swapped", "deltaNotDER", "deltaEmpty"}', "Depth = 4"]
+        consts = ['URLs = {"u1", "u2"}', "Bundles <- MCBundlesSmall", 'Corruptions = {"truncate", "swapped", "deltaNotDER", "deltaEmpty", "trailing"}', "Depth = 4"]
     else:
-        consts = ['URLs = {"u1", "u2", "u3"}', "Bundles <- MCBundles", 'Corruptions = {"truncate", "bitflip", "foreignJSON", "empty", "baseNotDER", "deltaNotDER", "deltaEmpty", "swapped"}', "Depth = 3"]
+        consts = ['URLs = {"u1", "u2", "u3"}', "Bundles <- MCBundles", 'Corruptions = {"truncate", "bitflip", "foreignJSON", "empty", "baseNotDER", "deltaNotDER", "deltaEmpty", "swapped", "trailing"}', "Depth = 3"]
     return mc_cfg(["Inv_C15", "Inv_Frame", "Inv_NoEffect", "Inv_Emit"], consts=consts)
 
 
